@@ -36,7 +36,7 @@ static std::vector<Text> base_universe(bool rich){
 // paths in which dot segments cancel completely IN FRONT of one or more empty segments (what is left starts with "/" or "//"), in every
 // context: the shapes where a produced path can be re-read as an absolute path or as an authority
 static std::vector<Text> ambiguity_family(){
-  std::vector<Text> out; const char* ctx[]={"","s:","s:/","/","//h/","s://h/"}; const char* pre[]={"a/..",".","./.","a/b/../..","..","a/../..","%2e","x/.."}; const char* tail[]={"b","b:c","","b/c","1:2"};
+  std::vector<Text> out; const char* ctx[]={"","s:","s:/","/","//h/","s://h/"}; const char* pre[]={"a/..",".","./.","a/b/../..","..","a/../..","%2e","x/.."}; const char* tail[]={"b","b:c","","b/c","1:2","x+y:z","x-y.z:w","x@y:z","x%41:z"};
   for(auto c:ctx) for(auto p:pre) for(int k=1;k<=3;++k) for(auto t:tail){ Text x=T(c)+T(p); for(int i=0;i<k;++i) x.push_back('/'); x.push_back('/'); x=x+T(t); out.push_back(x); }
   return out; }
 
@@ -110,6 +110,13 @@ static std::vector<Text> abs_universe(bool rich){
   for(auto s:sc) for(auto a:au) for(auto p:(*a?ph:pn)) for(auto q:qs){ if(!rich && s[0]=='t' && (a[0] && strcmp(a,"//h"))) continue; out.push_back(T(s)+T(a)+T(p)+T(q)); }
   return out; }
 
+// the "./" guard: after dot removal the first segment of a relative-path reference contains ':' - whatever stands before the colon
+// (scheme characters ALPHA DIGIT + - . , other pchars, percent-encodings, nothing at all)
+static std::vector<Text> colon_guard_family(){
+  std::vector<Text> out; const char* pre[]={"./","x/../","a/b/../../","%2e/","././/../"}; const char* first[]={"a:b","a1:b","a+b:c","a-b:c","a.b:c","A+1-.:x","1a:b","+a:b","-:x",".a:b","a_b:c","a~b:c","a!b:c","a@b:c","a%41:b","%41:b",":b","a:","a::b","a:b:c","svn+ssh:repo"};
+  for(auto p:pre) for(auto f:first) for(const char* rest:{"","/r","/r/s"}) out.push_back(T(p)+T(f)+T(rest));
+  return out; }
+
 static bool has_pct_dot(const Text&t){ std::string s=show(t); for(auto&c:s) c=(char)tolower(c); return s.find("%2e")!=std::string::npos; }
 
 VH_DRIVER(algebra){
@@ -128,9 +135,10 @@ VH_DRIVER(algebra){
   } else if(mode=="normalize"){
     std::vector<Text> in;
     { std::vector<const char*> sc={"","s:","S:","hTtP:"}, au={"","//","//h","//H%41%7e%3a%3A","//u%3a%41@Ex.COM:1","//[ABCD::1]","//[vF.A:b]","//1.2.3.4","//U:P@h","//u%3A%7e@h%3A%2d"}, qf={"","?","?a%41%7E%3a","#","#F%2f%2F%61","?q#f","?%3A%7E%3a#%3A%61"};
-      std::vector<const char*> alpha={"",".","..","a","A","%41","%7e","%7E","%3a","%3A","%2e","%2E","b:c","%2E%2e","a%4","...","..a","%3A%61","%3A%3a%41","%2E%2E%2e","1:2",":","a_b:c"};
+      std::vector<const char*> alpha={"",".","..","a","A","%41","%7e","%7E","%3a","%3A","%2e","%2E","b:c","%2E%2e","a%4","...","..a","%3A%61","%3A%3a%41","%2E%2E%2e","1:2",":","a_b:c","x+y:z","x-y.z:w"};
       auto paths=seg_seqs(alpha,g.thorough?3:2);
       for(auto s:sc) for(auto a:au) for(int ab=0;ab<2;++ab) for(auto&sg:paths) { bool nosegs=sg.size()==1&&sg[0]==1; if(*a&&!ab&&!nosegs) continue; const char*q=qf[(in.size())%7]; Text t=T(s)+T(a); if(ab) t.push_back('/'); if(!nosegs) t=t+sg; t=t+T(q); in.push_back(t); } }
+    { long q=0; for(auto&t:colon_guard_family()) for(unsigned m:{63u,8u}) for(int owned=0;owned<2;++owned){ ++q; AW(true,q%2,[&]{ normalize_event<ApiA>(t,m,owned,(int)(q%3)); },[&]{ normalize_event<ApiW>(t,m,owned,(int)(q%3)); }); } }
     { long q=0; for(auto&t:ambiguity_family()) for(unsigned m:{63u,8u}) for(int owned=0;owned<2;++owned){ ++q; AW(true,q%2,[&]{ normalize_event<ApiA>(t,m,owned,(int)(q%3)); },[&]{ normalize_event<ApiW>(t,m,owned,(int)(q%3)); }); } }
     static const unsigned masks[]={63,0,1,2,4,8,16,32,8|4,63^8,1|32,0x40|8,0xFFFFFFFFu,0x40,0x100};
     size_t total=in.size()*(g.thorough?64:6); double keep= total>(size_t)want? (double)want/total:1.0; long k=0;
@@ -143,6 +151,7 @@ VH_DRIVER(algebra){
   } else if(mode=="c09"){
     // the witness of known finding KF-C09-1 is replayed first on every run (known_findings.json), so the entry is shown to still reproduce
     if(!g.pair){ c09_event<ApiA>(T("abc/.."),T("s://g/x/y")); c09_event<ApiW>(T("abc/.."),T("s://g/x/y")); normalize_event<ApiA>(T("abc/.."),8,false,1); }
+    { long q=0; for(auto&r:colon_guard_family()){ if(has_pct_dot(r)) continue; for(const char*b:{"s:/x/y","s://g/x/y"}){ ++q; AW(true,q%2,[&]{ c09_event<ApiA>(r,T(b)); },[&]{ c09_event<ApiW>(r,T(b)); }); } } }
     { long q=0; for(auto&r:ambiguity_family()){ if(has_pct_dot(r)) continue; for(const char*b:{"s:/x/y","s:x/y","s://g/x/y","s:"}){ ++q; AW(true,q%2,[&]{ c09_event<ApiA>(r,T(b)); },[&]{ c09_event<ApiW>(r,T(b)); }); } } }
     size_t total=refs.size()*bases.size(); double keep= total>(size_t)want? (double)want/total:1.0; long k=0;
     for(auto&r:refs){ if(has_pct_dot(r)) continue; for(auto&b:bases){ ++k; if(b.empty()||b[0]!='s') continue; if(keep<1.0 && (R.next()%1000000)>=keep*1000000) continue; AW(true,k%2,[&]{ c09_event<ApiA>(r,b); },[&]{ c09_event<ApiW>(r,b); });
